@@ -305,3 +305,21 @@ PROPS['C14'] = dict(
     trusted_base=EG_TRUST + ['the three analyses are written twice (Rust in the harness, Lean in Model/Analysis.lean); their agreement is exactly what the per-run fixpoint check exercises'],
     assumptions=COMMON_ASSUME + ['constant folding is only run on histories of model-valid rewrites (its merge is a join only on compatible data)'],
 )
+
+PROPS['C05'] = dict(
+    level='translation_validation',
+    module='SlotVerif.Props.C05',
+    suites=[dict(name='mat', variant='default', shrink=False, quick=dict(count=800, timeout=900), thorough=dict(count=50000, timeout=3000)),
+            dict(name='mat', variant='checks', shrink=False, quick=dict(count=250, timeout=900), thorough=dict(count=10000, timeout=3000))],
+    rule='corr.match.sound: e-graphs from the C01 history generator (symmetric, redundant, self-referential classes); 4 single '
+         'patterns per graph obtained from tracked terms by abstracting random subterms into pattern variables (identical subterms '
+         'share a variable; subterms under binders included) and renaming all slots into pattern slot names; 2 multi-patterns of 1-3 '
+         'equations `?o == node(?c..)` built from e-nodes of tracked terms with shared variables, parsed from text. Every substitution '
+         'returned by ematch_all (first 12 per pattern) and multi_ematch (first 10) is printed and judged on the dumped state by the '
+         'Lean checker (checkMatch: all variables bound and the instance looks up without inserting; checkEquation: both sides of each '
+         'equation are bound and eq). Harness predicates: all variables bound, instance found by the implementation\'s own read-only '
+         'lookup, invocations bijective, state dump unchanged by matching (modulo path compression). non-trivial = at least two '
+         'substitutions were judged; distinct = by hash of the case line',
+    trusted_base=EG_TRUST + ['ematch_impl/ematch_node/multi_ematch are not modelled; only their results are judged'],
+    assumptions=COMMON_ASSUME,
+)
